@@ -211,3 +211,15 @@ void sched_run(int n, TaskCtx **ctx, TaskFn fn, void **args, const SchedConfig &
         res->switch_guards.assign(S.swg, S.swg + S.nswg);
     }
 }
+
+// ------------------------------------------------------------------ sanitizer death callback
+// Runs inside the sanitizer's Die(): no instrumented code, no intercepted libc call (raw write syscall only).
+extern __thread char g_cur_op_kind[32];
+int g_death_fd = -1;
+extern "C" void sim_death_callback(void) {
+    char b[80]; int n = 0; const char *pre = "X sanitizer-death op:";
+    while (pre[n]) { b[n] = pre[n]; n++; }
+    for (int i = 0; i < 31 && g_cur_op_kind[i]; i++) b[n++] = g_cur_op_kind[i];
+    b[n++] = '\n';
+    if (g_death_fd >= 0) syscall(SYS_write, g_death_fd, b, (long)n);
+}
